@@ -170,6 +170,14 @@ def deco(func, d, *args, **kwargs):
     return (d,) + func(*args, **kwargs)
 
 
+def wdeco(func, *args, **kwargs):
+    return func(*args, **kwargs)
+
+
+def GLOBAL_TARGET(x, y=2):
+    return (x, y)
+
+
 def make_classes():
     class K(object):
         def __init__(self, tag):
@@ -219,13 +227,34 @@ def make_classes():
         m_base = modifiers.kwoargs('c')(_base)
         m_strict = modifiers.posoargs(end='a')(m_base)
 
+        # a translator whose function forwards its stars in a way automatic discovery resolves
+        @modifiers.kwoargs('b')
+        def m_kwofwd(self, a, b=1, *args, **kwargs):
+            return (self.tag, a, b) + GLOBAL_TARGET(*args, **kwargs)
+
+        # wrappers above a classmethod: bound to the owner, through the class as through an instance
+        @wrappers.wrapper_decorator(wdeco)
+        @classmethod
+        def m_wcls(cls, q, r=1):
+            return (cls.__name__, q, r)
+
+        @wrappers.decorator(wdeco)
+        @classmethod
+        def m_dcls(cls, q, r=1):
+            return (cls.__name__, q, r)
+
+        @classmethod
+        def t_cls(cls, q, r=1):
+            return (cls.__name__, q, r)
+
     class Sub(K):
         pass
     return K, Sub
 '''
-METHODS = ('m_kwo', 'm_pos', 'm_fwd', 'm_deco', 'm_late', 'm_base', 'm_strict')
+METHODS = ('m_kwo', 'm_pos', 'm_fwd', 'm_deco', 'm_late', 'm_base', 'm_strict', 'm_kwofwd')
 STD_ARGS = {'m_kwo': (10,), 'm_pos': (10,), 'm_fwd': (10, 20), 'm_deco': (5, 10), 'm_late': (10, 20), 'm_base': (10,),
-            'm_strict': (10,)}
+            'm_strict': (10,), 'm_kwofwd': (10, 1, 20)}
+OWNER_BOUND = ('m_wcls', 'm_dcls')
 _MOD = {}
 
 
@@ -292,7 +321,7 @@ def apply_op(w, op):
         return safe(lambda: getattr(s, op[1])(*STD_ARGS[op[1]]))
     if kind == 'annotate':
         w.annotated = True
-        return safe(lambda: (M.annotate('R')(w.K.__dict__['m_kwo']), 'done')[1])
+        return safe(lambda: (M.annotate('R')(w.K.__dict__['m_kwo']), M.annotate('R', a=int)(w.K.__dict__['m_kwofwd']), 'done')[2])
     i = op[1]
     inst = w.inst[i]
     if kind == 'configure':
@@ -388,6 +417,29 @@ def b_run(depth, st, prefix=()):
     return hist.bfs(World, ops, apply_op, canon, check, depth, st, prefix)
 
 
+def owner_checks(st):
+    """Wrappers above a classmethod: retrieval and calls through the class, a subclass and instances of both agree with each
+    other and with what Python's own classmethod does (the undecorated twin t_cls)."""
+    w = World()
+    owners = (('K', w.K), ('K()', w.K('i')), ('Sub', w.Sub), ('Sub()', w.Sub('s')))
+    for m in OWNER_BOUND:
+        sigs = {}
+        for label, owner in owners:
+            st.inc('transitions')
+            want = safe(lambda: getattr(owner, 't_cls')(3))
+            got = safe(lambda: getattr(owner, m)(3))
+            sigs[label] = safe(lambda: str(sigtools.signature(getattr(owner, m))))
+            if got != want:
+                st.violation('result-depends-on-history', {'part': 'B', 'history': [], 'op': ['owner', m, label]},
+                             {'operation': '%s.%s(3)' % (label, m), 'result': repr(got)[:200],
+                              'the_same_classmethod_undecorated': repr(want)[:200]}, {'op': 'owner', 'method': m})
+        if len(set(sigs.values())) != 1 or list(sigs.values())[0][0] != 'ok':
+            st.violation('result-depends-on-history', {'part': 'B', 'history': [], 'op': ['owner-signature', m]},
+                         {'operation': 'sigtools.signature(<owner>.%s)' % m, 'by_owner': dict((k_, repr(v)[:120]) for k_, v in sigs.items())},
+                         {'op': 'owner-signature', 'method': m})
+        st.seen('obs', ('owner', m, tuple(sorted(sigs.items()))))
+
+
 def b_shard(tier, sh):
     """One shard = every history that starts with one given first operation (its own visited set: states reached from
     different first operations are explored again, which costs time, not coverage)."""
@@ -408,6 +460,7 @@ def b_shard(tier, sh):
             if obs != want:
                 raise runner.HarnessError('reference is not reproducible for %r' % (op,))
         st.inc('states', 1)
+        owner_checks(st)
         return st
     states, trans, deep = b_run(depth, st, prefix=(first_ops[k],))
     st.c['history_depth'] = 0
